@@ -7,11 +7,11 @@
     - [FundedChannel::build_closing_transaction] arithmetic (lightning/src/ln/channel.rs)
 
     Everything these call ([commit_tx_fee_sat], [htlc_*_tx_weight], [total_anchors_sat],
-    [saturating_sub_from_funder], constants) is the GENERATED code of [Gen/C01Fees.v],
-    [Gen/C01TxBuilder.v], [Gen/C01Consts.v]. The definitions here are tied to the Rust by functional
+    [saturating_sub_from_funder], constants) is the GENERATED code of [Gen/ChanUtilsFees.v],
+    [Gen/TxBuilder.v], [Gen/Consts.v]. The definitions here are tied to the Rust by functional
     correspondence through [lightning::sign::tx_builder::verif_hooks_c01] (harness h_commit) and, for
     the closing transaction, by the trace harness (h_chan). No proofs in this file. *)
-Require Import LdkV.Prim.U64 LdkV.Prim.Rs2vLib LdkV.Gen.C01Consts LdkV.Gen.C01Fees LdkV.Gen.C01TxBuilder.
+Require Import LdkV.Prim.U64 LdkV.Prim.Rs2vLib LdkV.Gen.Consts LdkV.Gen.ChanUtilsFees LdkV.Gen.TxBuilder.
 Open Scope Z_scope.
 
 (** The three supported channel types. *)
